@@ -44,7 +44,7 @@ ASSUMPTIONS = [
     "delpot = cutoff/(ngrid-4) is undefined for 4 rows)",
     "a cutoff that is not a whole multiple of the step is not constrained by the property and is not generated",
 ]
-REQUIRED = {"r:cutoff_dr": 40, "r:nr_dr": 15, "r:nr_cutoff": 15, "rho:cutoff_dr": 15, "reject": 30, "reject:all_three": 4, "reject:step_alone": 4, "reject:nr<=0": 4, "reject:dr<=0": 4, "reject:cutoff<=0": 4, "reject:nr_not_int": 4, "reject:dr_not_number": 4, "reject:all_three_one_zero": 4, "reject:not_finite": 4, "written": 60,
+REQUIRED = {"r:cutoff_dr": 40, "r:nr_dr": 15, "r:nr_cutoff": 15, "rho:cutoff_dr": 15, "reject": 30, "reject:all_three": 4, "reject:step_alone": 4, "reject:nr<=0": 4, "reject:dr<=0": 4, "reject:cutoff<=0": 4, "reject:nr_not_int": 4, "reject:dr_not_number": 4, "reject:all_three_one_zero": 4, "reject:not_finite": 4, "reject:single_row": 4, "written": 60,
             "r:default": 10}
 TARGETS = ["LAMMPS", "DLPOLY", "GULP", "excel", "setfl", "setfl_fs", "DL_POLY_EAM", "DL_POLY_EAM_fs",
            "excel_eam", "excel_eam_fs", "eam_adp"]
@@ -61,7 +61,7 @@ def dec_str(d):
 
 
 WHYS = ["all_three", "step_alone", "nr<=0", "dr<=0", "cutoff<=0", "nr_not_int", "dr_not_number", "all_three_one_zero",
-        "not_finite"]
+        "not_finite", "single_row"]
 
 
 @st.composite
@@ -142,6 +142,9 @@ def _entries(axname, ax):
     if why == "not_finite":
         bad = ["inf", "nan", "-inf", "Infinity"][nr % 4]
         return [[(n_nr, str(nr)), (n_cut, bad)], [(n_cut, cut), (n_dr, bad)], [(n_nr, str(nr)), (n_dr, bad)]][(nr // 4) % 3], "reject"
+    if why == "single_row":
+        # one row does not define a grid (the spacing is cutoff/(nr-1)): nr given as 1, or a cutoff shorter than dr
+        return [[(n_nr, "1"), (n_cut, cut)], [(n_nr, "1"), (n_dr, dr)], [(n_cut, dr), (n_dr, cut if Fraction(cut) > Fraction(dr) else "9.5")]][nr % 3], "reject"
     if why == "nr_not_int":
         return [(n_nr, "%d.5" % nr), (n_cut, cut)], "reject"
     return [(n_nr, str(nr)), (n_dr, "abc")], "reject"
@@ -292,13 +295,14 @@ def check_case(case):
             v.append(("read:accepted_invalid", "Configuration.read accepted\n%s" % text))
             return {"v": v, "cls": cls, "nt": nt}
     except ConfigurationException as e:
-        if not rejecting and not (target == "DLPOLY" and wr[0] % 4 != 0):
+        if not rejecting and not (target == "DLPOLY" and (wr[0] % 4 != 0 or wr[0] < 8)):
             v.append(("read:rejected_valid", "%r\n%s" % (e, text)))
         return {"v": v, "cls": cls, "nt": nt}
     except Exception as e:
         v.append(("read:exception:%s@%s" % (type(e).__name__, libroute.innermost_atsim_frame(e)), "%r\n%s" % (e, text)))
         return {"v": v, "cls": cls, "nt": nt}
-    if target == "DLPOLY" and wr[0] % 4 != 0:
+    if target == "DLPOLY" and (wr[0] % 4 != 0 or wr[0] < 8):
+        # C02: a row count not divisible by four is refused; with 4 rows delpot = cutoff/(ngrid-4) does not exist
         v.append(("read:accepted_invalid", "DL_POLY accepted %d rows\n%s" % (wr[0], text)))
         return {"v": v, "cls": cls, "nt": nt}
     if tab.nr != wr[0] or not _close(tab.cutoff, wr[1]):
@@ -307,7 +311,7 @@ def check_case(case):
         v.append(("object:rho", "tabulation object nrho=%r cutoff_rho=%r, expected %d, %r\n%s" % (
             tab.nrho, tab.cutoff_rho, wrho[0], float(wrho[1]), text)))
     rows = max(wr[0], wrho[0] if target in EAM else 0)
-    if rows <= 600 and not v and not (target == "LAMMPS" and wr[0] < 3) and not (target == "DLPOLY" and wr[0] < 8):
+    if rows <= 600 and not v:
         cls.append("written")
         try:
             out = libroute.write_text(tab)
